@@ -90,7 +90,7 @@ class Hang(BaseException):
 _ALL = list(FLAVOURS)
 _PLANS = {
     'quick': {
-        'sync': [{'L': 4, 'lat': ['0', 'h'], 'flavours': ['other']},
+        'sync': [{'L': 4, 'lat': ['0'], 'flavours': ['other']},
                  {'L': 3, 'lat': ['0', 'h'], 'flavours': _ALL}],
         'async': [{'L': 3, 'lat': ['0', 'h'], 'flavours': ['other']},
                   {'L': 2, 'lat': ['0', 'h'], 'flavours': _ALL}],
@@ -842,6 +842,7 @@ def run_client_shard(shard, tier):
     r = EnumResult()
     info = collections.Counter()
     where = WHERE[shard['client']]
+    seen = set()
     with _Patched() as patched:
         for case in _cases_of(shard, tier):
             r.cases += 1
@@ -850,10 +851,13 @@ def run_client_shard(shard, tier):
                 if k == 0:
                     nt = False                  # the priming call
                 prev = 'h' if (k > 0 and obs[k - 1].result == 'hang') else '-'
-                r.check(clause, ok, det, where, case,
-                        fp='%s/%s/%s/%s/prev%s' % (shard['client'], shape, obs[k].verdict.kind, case['foreign']
-                                                   if 'foreign' in shape else '', prev),
-                        nontrivial=nt)
+                fp = '%s/%s/%s/call%d/prev%s' % (shard['client'], shape, obs[k].verdict.kind, k, prev)
+                if not ok and (clause, fp) in seen:
+                    r.ev(clause, nt)            # one witness per fingerprint and shard is kept (the framework
+                    continue                    # keeps at most 300 violations of a shard)
+                if not ok:
+                    seen.add((clause, fp))
+                r.check(clause, ok, det, where, case, fp=fp, nontrivial=nt)
             interesting = False
             for o in obs[1:]:
                 info['%s_calls_verdict_%s' % (shard['client'], o.verdict.kind)] += 1
